@@ -59,7 +59,7 @@ func runC02(r *core.Run) {
 			switch reason {
 			case "outputs-exceed", "outputs-overflow", "signed-more-than-inputs-minus-fee", "signed-more-than-quote-amount",
 				"inputs-below-amount+reserve+fee", "nothing-left-after-fee", "more-signatures-than-outputs",
-				"internal-settlement-for-less-than-mint-quote", "quote-unpaid", "quote-already-issued", "input-spent", "input-pending", "duplicate-input-secret", "tampered-amount", "quote-paid", "quote-pending":
+				"internal-settlement-for-less-than-mint-quote", "quote-unpaid", "quote-already-issued", "input-spent", "input-pending", "input-paid-out-over-lightning", "duplicate-input-secret", "tampered-amount", "quote-paid", "quote-pending":
 				r.Violate("accepted:"+op+":"+reason, fmt.Sprintf("%s accepted although %s (%s)", op, reason, detail), sig, s.Tail(12))
 			default:
 				r.Observe("accepted-unexpectedly:"+reason, op+": "+detail)
